@@ -201,6 +201,26 @@ def gen_hostile(rng, tier):
             yield V.case_de_v(False, pos, 2, b + b"\0" + rng.choice(sigs).encode())
         else:
             yield V.case_de_s(rng.random() < 0.3, pos, 2, rng.choice(sigs), b)
+    # arrays whose elements do not consume their whole slice (maybe of a fixed-size type): one framing offset moved into
+    # the offsets area / past the end / below its predecessor (from_encoded_array must reject what lies beyond the data)
+    for _ in range(60 if tier == "quick" else 3000):
+        es = rng.choice(['y', 'u', 'n', 't', ('r', ['y', 'y']), ('r', ['u', 'q'])])
+        k = rng.randint(2, 6)
+        v = ('a', ('m', es), [('m', es, V.rand_val(rng, es, 1)) for _ in range(k)])
+        big = rng.random() < 0.3
+        b = V.marshal(v, big, 0)
+        ss = V.sigstr(V.vsig(v))
+        n = len(b)
+        w = 1 if n <= 255 else 2
+        start = n - w * k                       # = offsets_start of a valid encoding
+        yield V.case_de_s(big, 0, 0, ss, b)
+        for i in range(k):
+            for val in sorted({start + 1, n, n + 1, start, start - 1, 0, rng.randint(0, n + 2)}):
+                if val < 0 or val >= 256 ** w:
+                    continue
+                bb = bytearray(b)
+                bb[start + w * i:start + w * (i + 1)] = val.to_bytes(w, 'little')
+                yield V.case_de_s(big, 0, 0, ss, bytes(bb))
     # long tuples: the per-member framing offset is read from a shrinking window
     for nf in (2, 5, 100, 127, 128, 129, 130, 131, 200, 253):
         for ln in (0, 1, 2, 255, 256, 257, 258, 259, 300, 301, 511, 512):
